@@ -72,7 +72,7 @@ class Unit:
                  defines=(), cbmc_flags=(), backends=('minisat', 'kissat'), timeout=120,
                  bounded=None, functions=None, checks=None, object_bits=None, reach=True,
                  expect_fail=(), no_dfcc=False, contract_text='', cex=None, group=None,
-                 extra_cc=(), nondet_static=False, restrict_fp=(), assumed=(), static_fns=()):
+                 extra_cc=(), nondet_static=False, restrict_fp=(), assumed=(), static_fns=(), ignore=()):
         self.name = name
         self.sources = list(sources)          # paths relative to /verif or absolute
         self.entry = entry
@@ -100,6 +100,7 @@ class Unit:
         self.restrict_fp = list(restrict_fp)
         self.assumed = list(assumed)          # assumptions specific to this unit
         self.static_fns = list(static_fns)
+        self.ignore = list(ignore)   # regexes on obligation descriptions that are outside the property (each listed as an assumption)
 
 
 class UnitResult:
@@ -484,6 +485,8 @@ def run_unit(unit, tier='quick', keep_dir=None):
         else:
             res.status = 'undecided' if 'timeout' in res.detail else 'error'
             return res
+        if unit.ignore:
+            res.obligations = [o for o in res.obligations if not any(re.search(rx, o['description']) for rx in unit.ignore)]
         obs = res.obligations
         reach = [o for o in obs if o['description'] == 'REACH' and o['function'] == unit.entry]
         obs = [o for o in obs if not (o['description'] == 'REACH' and o['function'] != unit.entry)]
